@@ -1,4 +1,5 @@
 import Iavl.Lemmas.V2EvictCorrect
+import Iavl.Lemmas.V2Touch
 import Iavl.Lemmas.GetRank
 import Iavl.Generated.SrcC19Ok
 /-
@@ -51,6 +52,22 @@ theorem v2_iteration_under_every_eviction_setting [Ord K]
       = some (t.range s e asc incl) :=
   range_evict st ref _ s e asc incl t 0 hs
 
+/-- **reads re-load, invisibly**: `getLeftNode` / `getRightNode` keep the fetched child in the parent, so every
+    lookup changes the in-memory tree (`ENode.touch`: stubs on the search path become nodes whose other children are
+    stubs again). After any eviction and ANY sequence of lookups the in-memory tree still re-hydrates to `t`, and the
+    next lookup and the next range walk answer as `t` does: "the exact sequence of touches" does not matter -/
+theorem any_sequence_of_touches_is_invisible [Ord K] (st : Nat → Option (Node K V)) (ref : Node K V → Nat)
+    (policy : Nat → Node K V → Bool) (d : Nat) (t : Node K V) (hs : Saved st ref t) (touched : List K) :
+    let e := touched.foldl (fun e k => e.touch st ref k) (evict policy ref d t)
+    e.resolve st = some t ∧
+    (∀ key, e.get st key = some (t.get key)) ∧
+    (∀ s en asc incl, e.range st s en asc incl = some (t.range s en asc incl)) := by
+  intro e
+  have hb := backed_evict st ref policy t d hs
+  have hr : e.resolve st = some t :=
+    (resolve_touches st ref touched _ hb).1.trans (resolve_evict st ref policy t d hs)
+  exact ⟨hr, fun key => get_of_resolve st key e hr, fun s en asc incl => range_of_resolve st s en asc incl e hr⟩
+
 /-- the hypothesis is needed: evicting a node that was never written loses it (the failure mode of
     returning a dirty leaf to the pool / evicting before the write) - the fetch fails instead of answering -/
 theorem unsaved_eviction_fails :
@@ -72,7 +89,8 @@ example :
       if n = 97 then some ll else if n = 98 then some lr else if n = 99 then some r
       else if n = 1098 then some l else if n = 2099 then some t else none
     (evict (v2Policy 1 false 0) ref 0 t).get st [98] = some (1, some [2]) ∧
-    (evict (v2Policy 1 true 0) ref 0 t).range st none none false false = some [([99], [3]), ([98], [2]), ([97], [1])] := by
+    (evict (v2Policy 1 true 0) ref 0 t).range st none none false false = some [([99], [3]), ([98], [2]), ([97], [1])] ∧
+    (((evict (v2Policy 1 true 0) ref 0 t).touch st ref [97]).touch st ref [99]).get st [98] = some (1, some [2]) := by
   decide
 
 end Iavl.Props.C19
